@@ -30,9 +30,13 @@ pub fn check_world(w: &World, focus: Option<&str>) -> (Verdict, RunInfo, exec::R
         let mut w2 = w.clone();
         let mut last = run;
         while w2.budget < BUDGET_CAP {
-            let mut m = model::Model::new(&w2, &last.history);
-            m.build();
-            if !m.r2.is_empty() {
+            let explained = std::panic::catch_unwind(std::panic::AssertUnwindSafe(|| {
+                let mut m = model::Model::new(&w2, &last.history);
+                m.build();
+                m.r2.is_empty()
+            }))
+            .unwrap_or(false);
+            if !explained {
                 break;
             }
             w2.budget = (w2.budget * 4).min(BUDGET_CAP);
@@ -41,11 +45,22 @@ pub fn check_world(w: &World, focus: Option<&str>) -> (Verdict, RunInfo, exec::R
                 break;
             }
         }
-        let (v, info) = oracle::judge(&w2, &last, focus);
+        let (v, info) = judge_contained(&w2, &last, focus);
         return (v, info, last);
     }
-    let (v, info) = oracle::judge(w, &run, focus);
+    let (v, info) = judge_contained(w, &run, focus);
     (v, info, run)
+}
+
+/// The model and the oracles are plain code over the recorded history and are not expected to
+/// panic; if they do (which has only been seen on trees changed so that the parser's offsets no
+/// longer fit the text) the run is not judged and counts as a harness inconsistency, which
+/// decides the exit code only when the batch has no violation to report.
+pub fn judge_contained(w: &World, run: &exec::Run, focus: Option<&str>) -> (Verdict, RunInfo) {
+    match std::panic::catch_unwind(std::panic::AssertUnwindSafe(|| oracle::judge(w, run, focus))) {
+        Ok(r) => r,
+        Err(_) => (Verdict::Skip("harness_model_panic"), RunInfo::default()),
+    }
 }
 
 /// No legitimate world of the generator's size bounds comes near this many seam calls.
